@@ -95,7 +95,23 @@ def unreachable_positions(case):
 def whitespace_names(case):
     """PREDICATE ON THE CASE for the known finding listing-name-with-white-space: configured names holding a blank, a tab
     or a newline"""
-    return [bytes.fromhex(nm) for nm, _ in case.get('cfgd', []) if WS.search(bytes.fromhex(nm))]
+    if 'cfgd' in case:
+        names = [bytes.fromhex(nm) for nm, _ in case['cfgd']]
+    else:
+        # cases generated without the list of configured entries (corruptions that are still accepted): the quoted word
+        # after every step / regress keyword of the text
+        names = re.findall(rb'(?:step|regress)[ \t\n\r\x0b\x0c]*"([^"]*)"', bytes.fromhex(case.get('text', '')))
+    return [nm for nm in names if WS.search(nm)]
+
+
+def not_resolvable_signature(case, name):
+    """a name taken from a listing line that robsd-exec does not find: when it is the first word(s) of a configured name
+    holding white space, the line was cut where the format cuts it - the known finding; anything else is its own failure"""
+    for full in whitespace_names(case):
+        words = WS.split(full)
+        if any(name == b' '.join(words[:k]) or name == words[0] for k in range(1, len(words))):
+            return 'listing-name-with-white-space'
+    return 'listed-step-not-resolvable'
 
 
 P_BOUNDARY = 0.15
@@ -373,13 +389,15 @@ def evaluate(ctx, cases, res, world=None, offsets_all=False):
             qi += 1
             res.count('exec')
             if a[0] == 'none':
-                dis('resolve %r' % name, 'none', 'rc=%d' % rc)
+                if not (not_resolvable_signature(case, name) == 'listing-name-with-white-space' and b'step script not found' in err):
+                    # (a name cut out of a line at a blank is not a listed name: model and runner agree that it is unknown)
+                    dis('resolve %r' % name, 'none', 'rc=%d' % rc)
                 if b'step script not found' in err:
-                    res.oracle_failures.append({'case': case, 'signature': 'listed-step-not-resolvable',
+                    res.oracle_failures.append({'case': case, 'signature': not_resolvable_signature(case, name),
                                                 'what': 'robsd-step -L lists %r but robsd-exec does not find it' % name})
                 continue
             if b'step script not found' in err:
-                res.oracle_failures.append({'case': case, 'signature': 'listed-step-not-resolvable',
+                res.oracle_failures.append({'case': case, 'signature': not_resolvable_signature(case, name),
                                             'what': 'robsd-step -L lists %r but robsd-exec does not find it' % name})
             # independent of the model: the stub scripts print their arguments (the last one is the step name), the
             # literal canvas commands print the position of their step
@@ -459,7 +477,9 @@ def evaluate(ctx, cases, res, world=None, offsets_all=False):
                                                     'show it there: %r' % (n0, i0 + 1, listed[:20])})
         ambiguous = False
         if fullrc == 0 and lines is None and not ambiguous:
-            res.oracle_failures.append({'case': case, 'signature': 'listing-unparsable', 'what': 'robsd-step -L printed lines not of the form "N name[ parallel]"'})
+            # with a configured name holding white space the lines cannot be read back: that IS the known finding
+            res.oracle_failures.append({'case': case, 'signature': 'listing-name-with-white-space' if whitespace_names(case) else 'listing-unparsable',
+                                        'what': 'robsd-step -L printed lines not of the form "N name[ parallel]"'})
         if lines is not None:
             ltok = [str(len(lines))] + [t for k, nm, p in lines for t in (str(k), hexs(nm), '1' if p else '0')]
             if 'cfgd' in case:
